@@ -256,6 +256,14 @@ class World(object):
         parent = builder.get_path(pt.env, pt.obj, op["path"][:-1])
         setattr(parent, op["path"][-1], [pt.env.classes[op["cls"]]() for _ in range(op["n"])])
 
+    def op_lo_setitem(self, op):
+        """replace one element object of an object list: lst[i] = Cls()"""
+        pt = self.parties[op["p"]]
+        lst = builder.get_path(pt.env, pt.obj, op["path"])
+        if len(lst) == 0:
+            return
+        lst[op["i"] % len(lst)] = pt.env.classes[op["cls"]]()
+
     def _lv(self, pt, path, v):
         cx = refsem.Cx(pt.env.prog, pt.cname, None)
         f = cx.ftype(path)
